@@ -19,6 +19,10 @@ type MemStore struct {
 	coll map[string]map[string]int64            // collection name -> key -> score
 	Ops  map[string]int
 	Fail func(op string, name string) error // fault hook
+	// IterHook, when set, is called before the i-th entity (0-based) of an
+	// IterateCollection is handed to the handler: a fault point for slow pool
+	// iteration (the hook may sleep on the simulated clock). Cleared by Reset.
+	IterHook func(ctx context.Context, collection string, i int)
 }
 
 func NewMemStore() *MemStore {
@@ -33,6 +37,7 @@ func (m *MemStore) Reset() {
 	m.coll = map[string]map[string]int64{}
 	m.Ops = map[string]int{}
 	m.Fail = nil
+	m.IterHook = nil
 }
 
 var ErrNotFound = errors.New("entity not found")
@@ -256,8 +261,12 @@ func (m *MemStore) IterateCollection(ctx context.Context, em datastore.EntityMet
 		ce.SetCollectionScore(e.s)
 		ents = append(ents, ce)
 	}
+	hook := m.IterHook
 	m.mu.Unlock()
-	for _, ce := range ents {
+	for i, ce := range ents {
+		if hook != nil {
+			hook(ctx, collectionName, i)
+		}
 		select {
 		case <-ctx.Done():
 			return ctx.Err()
